@@ -66,6 +66,7 @@ type Engine struct {
 	doneUpTo   int
 	evLog      []string
 	inlineBuf  []*StoreRec
+	closedUse  int
 }
 
 var curEngine atomic.Pointer[Engine]
@@ -603,6 +604,10 @@ func (e *Engine) observe() {
 		}
 	}
 	e.flushInlineStores()
+	if e.closedUse > 0 {
+		e.hist.Probes["store-used-after-close"] += e.closedUse
+		e.closedUse = 0
+	}
 	if ev := e.drainEvicted(); len(ev) > 0 {
 		sort.Strings(ev)
 		for _, x := range ev {
